@@ -24,7 +24,30 @@ fn maps(events: &[hooks::Event]) -> String {
     if out.is_empty() { "-".into() } else { out.join(";") }
 }
 
+/// `async_subset r=<region>`: the asynchronous multi-chunk read (its sharding partial decoder assembles the views on its own
+/// code path) over a copy of the store's contents, with the same recording of view writes
+#[cfg(feature = "zasync")]
+fn async_subset(ctx: &ArrCtx, m: &BTreeMap<String, String>) -> String {
+    use zarrs::storage::{store::MemoryStore, ListableStorageTraits, ReadableStorageTraits, WritableStorageTraits};
+    let mem = std::sync::Arc::new(MemoryStore::new());
+    for k in ctx.store.store.list().unwrap_or_default() { if let Ok(Some(v)) = ctx.store.store.get(&k) { let _ = mem.set(&k, v); } }
+    let astore: zarrs::storage::AsyncReadableWritableListableStorage = std::sync::Arc::new(crate::c07::AsyncMem(mem));
+    let rt = tokio::runtime::Builder::new_current_thread().enable_all().build().unwrap();
+    let r = parse_subset(&m["r"]);
+    let (path, es, o) = (ctx.path.clone(), ctx.es, ctx.opts.clone());
+    hooks::start_recording(false);
+    let out = guarded(|| rt.block_on(async {
+        let a = match zarrs::array::Array::async_open(astore.clone(), &path).await { Ok(a) => a, Err(_) => return "err-open".to_string() };
+        match a.async_retrieve_array_subset_opt(&r, &o).await { Ok(b) => format!("val {}", show_elems(&from_array_bytes(es, b))), Err(_) => "err".into() }
+    }));
+    let ev = hooks::stop_recording();
+    format!("{} wmaps={}", out, maps(&ev))
+}
+#[cfg(not(feature = "zasync"))]
+fn async_subset(_ctx: &ArrCtx, _m: &BTreeMap<String, String>) -> String { "skip".into() }
+
 pub fn exec_op(ctx: &mut ArrCtx, st: &mut C06State, verb: &str, m: &BTreeMap<String, String>, dtype: &str) -> String {
+    if verb == "async_subset" { return async_subset(ctx, m); }
     let is_read = verb.starts_with("retrieve") || verb.starts_with("cached") || verb.starts_with("sharded") || verb.starts_with("inner_chunk") || verb == "pd";
     if !is_read { return c06_exec(ctx, st, verb, m, dtype); }
     hooks::start_recording(false);
@@ -93,9 +116,12 @@ pub fn generate(tier: &str, seed: u64) -> Vec<String> {
         // (own stream) regions that reach beyond the array shape but stay inside the chunks of the grid ("out-of-bounds
         // elements will have the fill value"): every byte of the larger buffer must still be written exactly once, on the
         // plain, the cached and the sharded-extension path
-        if cfg.grid.iter().all(|d| d.0) && !cfg.shape.is_empty() {
+        if !cfg.shape.is_empty() {
             let mut ro = Rng::new(seed ^ 0xC17_0B ^ (k as u64) << 12);
-            let ext: Vec<u64> = gs.iter().zip(&cfg.grid).map(|(&g, d)| g * d.1[0]).collect();
+            // the extent the chunks of the grid cover; a dimension with a list of chunk sizes ends with the array: there the
+            // region reaches up to two elements BEYOND the grid (the read is then an error, or - if it succeeds - must still
+            // write every byte of what it returns)
+            let ext: Vec<u64> = gs.iter().zip(&cfg.grid).zip(&cfg.shape).map(|((&g, d), &sh)| if d.0 { g * d.1[0] } else { sh + 2 }).collect();
             if ext.iter().zip(&cfg.shape).any(|(a, b)| a > b) {
                 for _ in 0..3 {
                     let mut s = vec![]; let mut n = vec![];
@@ -121,6 +147,8 @@ pub fn generate(tier: &str, seed: u64) -> Vec<String> {
                 }
                 out.push(format!("c17 op pd c={} rs={}", nl(&chunk), regs.join("|")));
             }
+            // (own stream) the same region through the asynchronous read
+            if (k + s.len()) % 3 == 0 { out.push(format!("c17 op async_subset r={}+{}", nl(&s), nl(&n))); }
             match rng.below(6) {
                 0 | 1 | 2 => out.push(format!("c17 op retrieve_array_subset r={}+{}", nl(&s), nl(&n))),
                 3 => out.push(format!("c17 op cached_subset cid=k0 r={}+{}", nl(&s), nl(&n))),
